@@ -782,9 +782,11 @@ class _TwLoopStub(object):
 def run_twisted(params, prefix, part):
     progs = programs_of(params)
     rec = Recorder()
-    if params.get('prefill') or params.get('chunk'):
-        raise HarnessError('prefill/chunk are parameters of the asyncio world')
-    s = PooledScheduler(prefix, focus_files=TWISTED_FOCUS_FILES, horizon=params.get('horizon', 4000))
+    if params.get('prefill'):
+        raise HarnessError('prefill is a parameter of the asyncio world')
+    cap = params.get('line_cap')
+    s = PooledScheduler(prefix, focus_files=() if cap == 0 else TWISTED_FOCUS_FILES, horizon=params.get('horizon', 4000))
+    s.line_cap = cap
     r = VReactor(rec)
     saved = (tr.reactor, tr.TwistedConnection._loop)
     tr.reactor, tr.TwistedConnection._loop = r, _TwLoopStub()
@@ -804,6 +806,8 @@ def run_twisted(params, prefix, part):
         warm_sent = b''.join(c.transport.sent)
         del c.transport.sent[:]
         del rec.ev[:]
+        if params.get('chunk'):
+            c.out_buffer_size = params['chunk']
         r.vs = s
         r.partial_left = params.get('partial', 0)
         r.slow_bytes = params.get('slow_bytes', 0)
